@@ -176,11 +176,13 @@ CHECKS = {
              "decorator stack leaves every list cell, function object, class, binding and registration that existed before "
              "unchanged (C17_function_decoration_frame); so does a class statement - member definitions, the meta-class "
              "merging inherited contracts and invariant lists, invariant wrappers, registration, class decorators - provided "
-             "the new class shows only invariant lists of its own (C17_class_statement_frame; hypothesis discharged for "
-             "classes without bases and statements without class decorators, evaluated on every generated history "
-             "otherwise). Tie: contents and identity of all lists of all earlier classes after each step (spec_C17).",
-        note=TB + "Partial: the OwnLists hypothesis is not proved for all reachable worlds (needs well-formed C3 "
-             "linearisations); it is evaluated on the model's world for every generated history on every run.",
+             "the new class shows only invariant lists of its own (C17_class_statement_frame) - which holds for every class "
+             "created through the meta-class in every world a history of definitions reaches "
+             "(C17_class_statement_frame_reachable: an invariant of reachable worlds kept by every step, C3 merges only "
+             "its inputs; Proofs/ElabOwnLists.v). Tie: contents and identity of all lists of all earlier classes after each "
+             "step, incl. later decorations K.f = decorator(K.f) (spec_C17).",
+        note=TB + "Not covered by a theorem: the frame of a later decoration of a member (correspondence only); recorded "
+             "finding D32 (alias of another class's method in a class body).",
         design="DESIGN.md section 6 C17"),
     "C18": dict(
         text="Theorems: judging a call by hand over the introspected lists (DNF, then CNF on the result) gives the "
